@@ -30,6 +30,66 @@ theorem crcAgree : CrcAgree := ⟨CrcAgreeProof.crc16_agree, CrcAgreeProof.crc32
     independent reference, CRC values included. -/
 theorem encode_eq_spec : EncodeEqSpec := encode_eq_spec_partial crcAgree
 
+/-! ### fragment fields are on the wire iff the "is a fragment" flag is set
+
+  `wf` (the round-trip domain) demands zero fragment fields on non-fragments, because such fields do
+  not survive encoding. For the wire format alone that restriction is not needed: a non-fragment
+  whose `fragmentation_offset` / `total_data_length` still hold values (a reassembled bundle whose
+  flag was cleared, a builder call without the flag) is written with 8 (9) items, the fields unseen. -/
+
+/-- the primary block with fragment fields forgotten unless the flag says fragment -/
+def normFrag (p : Primary) : Primary := if p.isFragment then p else { p with fragOff := 0, total := 0 }
+
+def normFragB (b : Bundle) : Bundle := { b with primary := normFrag b.primary }
+
+theorem encPrimary_normFrag (p : Primary) : encPrimary (normFrag p) = encPrimary p := by
+  unfold normFrag
+  cases h : p.isFragment
+  · have h' : ({ p with fragOff := 0, total := 0 } : Primary).isFragment = false := h
+    simp [encPrimary, h, h']
+  · simp
+
+theorem normFrag_setCrc (p : Primary) (c : CrcVal) :
+    ({ normFrag p with crc := c } : Primary) = normFrag { p with crc := c } := by
+  unfold normFrag
+  have : ({ p with crc := c } : Primary).isFragment = p.isFragment := rfl
+  rw [this]
+  cases p.isFragment <;> rfl
+
+theorem calcCrc_normFrag (p : Primary) : (normFrag p).calcCrc = p.calcCrc := by
+  have hc : (normFrag p).crc = p.crc := by unfold normFrag; cases p.isFragment <;> rfl
+  unfold Primary.calcCrc calcCrc
+  simp only [hc, normFrag_setCrc, encPrimary_normFrag]
+
+theorem updateCrc_normFrag (p : Primary) : encPrimary (normFrag p).updateCrc = encPrimary p.updateCrc := by
+  unfold Primary.updateCrc
+  rw [calcCrc_normFrag, normFrag_setCrc, encPrimary_normFrag]
+
+theorem spec_primaryFields_normFrag (p : Primary) : Spec.primaryFields (normFrag p) = Spec.primaryFields p := by
+  unfold normFrag
+  cases h : p.isFragment
+  · have hs : Spec.isFragment p = false := by rw [spec_isFragment]; exact h
+    have hs' : Spec.isFragment ({ p with fragOff := 0, total := 0 } : Primary) = false := by
+      rw [spec_isFragment]; exact h
+    simp [Spec.primaryFields, hs, hs']
+  · simp
+
+theorem spec_primaryItem_normFrag (p : Primary) : Spec.primaryItem (normFrag p) = Spec.primaryItem p := by
+  have hc : (normFrag p).crc = p.crc := by unfold normFrag; cases p.isFragment <;> rfl
+  unfold Spec.primaryItem
+  rw [spec_primaryFields_normFrag, hc]
+
+/-- **C02 (stale fragment fields).** Whatever a non-fragment's fragment fields hold, the bytes are
+    the RFC encoding — the one of the bundle without them. -/
+theorem encode_eq_spec_stalefrag (b : Bundle) (h : (normFragB b).wf = true) :
+    (b.toCbor).2 = Spec.encode b := by
+  have h1 : (b.toCbor).2 = ((normFragB b).toCbor).2 := by
+    simp only [Bundle.toCbor, encBlocks, Bundle.calculateCrc, normFragB, updateCrc_normFrag]
+  have h2 : Spec.encode b = Spec.encode (normFragB b) := by
+    simp only [Spec.encode, Spec.bundleItem, normFragB, spec_primaryItem_normFrag]
+  rw [h1, h2]
+  exact encode_eq_spec (normFragB b) h
+
 /-- **C02 (blocks, unconditional).** Every primary block is written as the definite array of its
     §4.3.1 fields in order, followed by the stored CRC value as a byte string iff it has one. -/
 theorem primary_layout (p : Primary) (h : p.wf = true) :
@@ -115,5 +175,11 @@ theorem golden_reference :
        26, 0, 54, 238, 128, 66, 188, 152, 134, 1, 1, 0, 1, 67, 65, 66, 67, 66, 15, 86, 255] := by decide +kernel
 /-- and the model encoder produces the same golden bytes -/
 theorem golden_model : (golden.toCbor).2 = Spec.encode golden := by decide +kernel
+
+/-- a reassembled bundle: flag cleared, offset / total length still set -/
+def staleFrag : Bundle :=
+  { golden with primary := { golden.primary with fragOff := 1024, total := 4096 } }
+example : staleFrag.wf = false ∧ (normFragB staleFrag).wf = true := by decide
+example : (staleFrag.toCbor).2 = Spec.encode staleFrag := encode_eq_spec_stalefrag staleFrag (by decide)
 
 end Bp7.C02
